@@ -185,6 +185,16 @@ def run(coro_fn):
         asyncio.set_event_loop(None)
 
 
+class _Stalled:
+    """a script for FakeTransportStream.accepts that answers 'would block' for ever"""
+    def __bool__(self):
+        return True
+
+    def pop(self, i=0):
+        from .fakestream import WOULD_BLOCK
+        return WOULD_BLOCK
+
+
 def random_mask(rng):
     return bytes(rng.randrange(256) for _ in range(4))
 
@@ -201,6 +211,7 @@ def session(steps, settings=None, extra_request_headers=b"", handler_attrs=None,
         ("close", code, reason)         the application calls handler.close(code, reason)
         ("write", message)              the application calls handler.write_message
         ("ping", data)                  the application calls handler.ping
+        ("stall",)                      the peer stops reading: writes stay in the buffer from now on
         ("advance", seconds)            virtual time passes (in steps of <= 0.25 s so that timers fire in order)
     Returns dict(events=[...handler events and write outcomes in order...], frames=[decoded frames the server sent after the handshake], closed_at=step index or None,
                  status=handshake status line, logs=[error records])"""
@@ -247,6 +258,9 @@ def session(steps, settings=None, extra_request_headers=b"", handler_attrs=None,
                     if not stream.closed():
                         stream.feed(st[1])
                         stream.pump()
+                elif kind == "stall":
+                    # the peer stops reading: from now on the transport accepts nothing (the socket's send buffer is full)
+                    stream.accepts = _Stalled()
                 elif kind == "eof":
                     if not stream.closed():
                         stream.feed(EOF)
@@ -272,8 +286,9 @@ def session(steps, settings=None, extra_request_headers=b"", handler_attrs=None,
                         d = min(0.25, left)
                         v.advance(d)
                         left -= d
-                        await v.tick(3)
+                        await v.tick(10)            # everything that falls due at this instant (timer -> coroutine -> sleep(0) -> next action) settles before the clock moves on
                         stream.pump()
+                        await v.tick(2)
             except Exception as e:     # noqa: B902
                 events.append(("step-raised", kind, type(e).__name__, str(e)[:80]))
             await v.tick(4)
